@@ -642,6 +642,10 @@ func genTimed(tier string, seed int64, only string) []*Case {
 		add("Interval", "d", ds, "slow", "0:"+itoa(3*d), "cut", "out:"+itoa(6*d))
 		add("IntervalWithInitial", "d", ds, "d2", itoa(2*d), "cut", "out:"+itoa(5*d))
 		add("IntervalWithInitial", "d", ds, "d2", ds, "cut", "cancel:"+itoa(4*d))
+		// the witnesses of the two findings repaired by /repo 6a7ef90 (initial = 0 errored; interval > initial raced)
+		add("IntervalWithInitial", "d", ds, "d2", "0", "cut", "out:"+itoa(3*d+d/2))
+		add("IntervalWithInitial", "d", itoa(10*d), "d2", "1", "cut", "out:"+itoa(4*d))
+		add("IntervalWithInitial", "d", itoa(10*d), "d2", "500", "cut", "out:"+itoa(4*d))
 		add("Timer", "d", ds, "cut", "-")
 		add("Timer", "d", ds, "cut", "cancel:"+itoa(d/2))
 		add("RangeWithInterval", "d", ds, "a", "3", "b", "6", "cut", "-")
@@ -704,9 +708,9 @@ func genTimed(tier string, seed int64, only string) []*Case {
 			return "out:" + itoa(r.Intn(span) + d/2)
 		}
 		add("Interval", "d", itoa(d), "slow", pickSlow(d, periods), "cut", cutP())
-		// IntervalWithInitial: period <= initial (see docs/C16.md: with period > initial the 2*initial
-		// ticker races the initial timer - known finding, replayed separately)
-		ini := d * (1 + r.Intn(3))
+		// IntervalWithInitial: any initial >= 0 against any period (since /repo 6a7ef90 the ticker is
+		// silent until Reset: initial = 0 emits at once, interval > initial no longer races)
+		ini := []int{0, 1, 500, d / 4, d / 2, d, 2 * d, 3 * d}[r.Intn(8)]
 		add("IntervalWithInitial", "d", itoa(d), "d2", itoa(ini), "slow", pickSlow(d, periods), "cut",
 			[]string{"out:", "cancel:"}[r.Intn(2)]+itoa(ini+r.Intn(span)))
 		if i%2 == 0 {
